@@ -102,6 +102,24 @@ def ref_cdf(tm, cdim, given):
     return grid, cdf / cdf[-1]
 
 
+def joint_cdf_reference(tm, base, q):
+    """P(Hs <= h, Tz <= tz) of the transformed model from the base model alone: the integral over u <= h of
+    f_Hs(u) * P(second base variable on the side of transform(u, tz) that corresponds to Tz <= tz | u)"""
+    h, tz = float(q[0]), float(q[1])
+    d0, d1 = base.distributions[0], base.distributions[1]
+    t = tm.transform
+    decreasing = t(np.array([[1.0, 5.0]]))[0, 1] > t(np.array([[1.0, 5.5]]))[0, 1]
+
+    def integrand(u):
+        sv = float(t(np.array([[u, tz]]))[0, 1])
+        f1 = float(np.ravel(d1.cdf(np.array([sv]), given=np.array([u])))[0])
+        return float(np.ravel(d0.pdf(np.array([u])))[0]) * ((1.0 - f1) if decreasing else f1)
+    with warnings.catch_warnings():
+        warnings.simplefilter("ignore")
+        val, err = integrate.quad(integrand, 1e-9, h, limit=200)
+    return val if np.isfinite(val) and err < 1e-5 else None
+
+
 def oracle_model(getter, rng, tier_quick, notes):
     tm, base = make_tm(getter)
     t, inv, jac = tm.transform, tm.inverse, tm.jacobian
@@ -113,6 +131,24 @@ def oracle_model(getter, rng, tier_quick, notes):
         return ({"clause": "pdf", "getter": getter}, "TransformedModel.pdf differs from base.pdf(transform(x)) * jacobian(x)")
     if np.any(got < 0):
         return ({"clause": "pdf-negative", "getter": getter}, "negative density")
+    # whole-number evaluation points in an integer-typed array are the same points: transform, round trip,
+    # Jacobian and density as for the float-typed array
+    xi = np.column_stack([rng.choice(np.arange(1, 7), 4, replace=False), rng.choice(np.arange(3, 15), 4, replace=False)]).astype(np.int64)
+    xf = xi.astype(float)
+    for kind, arg in (("int64 ndarray", xi), ("int32 ndarray", xi.astype(np.int32))):
+        try:
+            ti, pi_, ji = np.asarray(t(arg), dtype=float), np.asarray(tm.pdf(arg), dtype=float), np.asarray(jac(arg), dtype=float)
+            bi = np.asarray(inv(t(arg)), dtype=float)
+        except Exception as e:  # noqa
+            return ({"clause": "integer-points", "getter": getter, "exc": type(e).__name__},
+                    "evaluation at %s %r raised %s: %s" % (kind, xi.tolist(), type(e).__name__, str(e)[:120]))
+        for what, a_, b_ in (("transform", ti, np.asarray(t(xf), dtype=float)), ("pdf", pi_, np.asarray(tm.pdf(xf), dtype=float)),
+                             ("jacobian", ji, np.asarray(jac(xf), dtype=float)), ("inverse(transform(x))", bi, xf)):
+            if a_.shape != b_.shape or not np.allclose(a_, b_, rtol=1e-9, atol=0):
+                return ({"clause": "integer-points", "getter": getter, "what": what},
+                        "%s at the %s %r is %r, at the same points as floats %r" % (what, kind, xi.tolist(), a_.tolist(), b_.tolist()))
+    if not np.array_equal(xi, np.column_stack([xi[:, 0], xi[:, 1]])) or xi.dtype != np.int64:
+        return ({"clause": "integer-points", "getter": getter, "what": "input modified"}, "the integer input array was modified")
     # samples are inverse-transformed base samples
     rec = {}
     orig = base.draw_sample
@@ -147,13 +183,23 @@ def oracle_model(getter, rng, tier_quick, notes):
     if not np.array_equal(ec, man):
         return ({"clause": "empirical-cdf", "getter": getter}, "empirical_cdf differs from the manual count")
     # ... for samples of any length (also long ones whose length is no round number)
-    for nbig in (100000, 150001, 250000):
-        sb = tm.draw_sample(nbig, random_state=5)
+    jref = [joint_cdf_reference(tm, base, q) for q in pts]
+    for nbig, sd in ((100000, 5), (150001, 0), (250000, "gen5")):
+        rs = np.random.default_rng(5) if sd == "gen5" else sd
+        sb = tm.draw_sample(nbig, random_state=rs)
         ecb = np.asarray(tm.empirical_cdf(pts, sample=sb), dtype=float)
         manb = np.array([np.mean((sb[:, 0] <= q[0]) & (sb[:, 1] <= q[1])) for q in pts])
         if not np.allclose(ecb, manb, rtol=0, atol=1e-12):
             return ({"clause": "empirical-cdf", "getter": getter, "n": nbig},
                     "empirical_cdf(x, sample of %d rows) = %r but the fraction of sample rows with all coordinates <= x is %r" % (nbig, ecb.tolist(), manb.tolist()))
+        # ... and a SEEDED sample follows the model as any other: its empirical joint cdf against the exact push-forward cdf
+        # (one-dimensional quadrature over the base model), Hoeffding bound at 1e-12 per point
+        eps_s = math.sqrt(math.log(2 / 1e-12) / (2 * nbig)) + 1e-6
+        for q, e_, r_ in zip(pts, manb, jref):
+            if r_ is not None and abs(e_ - r_) > eps_s:
+                return ({"clause": "seeded-sample-distribution", "getter": getter},
+                        "draw_sample(%d, random_state=%r): a fraction %.5f of the rows is <= (%.4g, %.4g) in both coordinates, the model's cdf there is %.5f (band %.5f)"
+                        % (nbig, sd, e_, q[0], q[1], r_, eps_s))
     # the density integrates, over a box, to the fraction of the model's own samples in that box (DKW 1e-12)
     if not tier_quick:
         box = (0.05, 12.0, 1.0, 25.0)   # hs_lo, hs_hi, tz_lo, tz_hi
